@@ -248,6 +248,12 @@ pub fn register_name_words(words: impl IntoIterator<Item = String>) {
 pub fn stem(msg: &str) -> String {
     // message stem: digits, quoted parts and generated identifiers removed, first words kept
     let names = NAME_WORDS.lock().unwrap();
+    // an unwrapped QueryError: its own message is the informative part
+    if let Some(i) = msg.find("FatalError(\"") {
+        let inner: String = msg[i + 12..].chars().take_while(|c| *c != '"').collect();
+        let inner: String = inner.chars().filter(|c| !c.is_ascii_digit()).collect();
+        return format!("FatalError: {}", inner.split_whitespace().take(8).collect::<Vec<_>>().join(" "));
+    }
     // messages that go on to quote table / column names are cut before them
     let msg = match msg.find(", table") {
         Some(i) => &msg[..i],
@@ -312,6 +318,11 @@ pub struct Env {
     /// a panic the database caught itself (worker survives, caller gets an error) is a violation
     /// except where failing requests are the workload (C11/C12)
     pub contained_panics_violate: bool,
+    /// (sql, outcome) of every generated query, for the differential oracle (C02)
+    pub query_log: Vec<(String, Result<QOut, QErr>)>,
+    /// (table, column) pairs for which some request carried no value at all (column absent or all
+    /// NULL in the request): some partition may hold the column with type Null
+    pub null_typed: BTreeSet<(String, String)>,
 }
 
 static NEXT_GROUP: std::sync::atomic::AtomicU32 = std::sync::atomic::AtomicU32::new(1);
@@ -319,7 +330,7 @@ static NEXT_GROUP: std::sync::atomic::AtomicU32 = std::sync::atomic::AtomicU32::
 impl Env {
     pub fn new(root: &str, opts: OptsSpec) -> Env {
         rt::fs::add_root(root);
-        Env { root: root.to_string(), opts, db: None, model: Model::default(), violations: Vec::new(), counters: BTreeMap::new(), panics_seen: 0, strict_types: false, group: NEXT_GROUP.fetch_add(1, std::sync::atomic::Ordering::SeqCst), contained_panics_violate: true }
+        Env { root: root.to_string(), opts, db: None, model: Model::default(), violations: Vec::new(), counters: BTreeMap::new(), panics_seen: 0, strict_types: false, group: NEXT_GROUP.fetch_add(1, std::sync::atomic::Ordering::SeqCst), contained_panics_violate: true, query_log: Vec::new(), null_typed: BTreeSet::new() }
     }
 
     pub fn count(&mut self, k: &str) {
@@ -439,7 +450,26 @@ impl Env {
         sched::progress();
         match r {
             Ok(()) => {
+                // columns that first appear when the table already has rows: the earlier partitions lack them
+                let before: BTreeMap<String, (usize, Vec<String>)> = req.tables.iter().filter_map(|tb| self.model.tables.get(&tb.table).map(|mt| (tb.table.clone(), (mt.rows.len(), mt.cols.clone())))).collect();
                 self.model.apply(req);
+                for tb in &req.tables {
+                    if let Some(mt) = self.model.tables.get(&tb.table) {
+                        if let Some((rows, cols)) = before.get(&tb.table) {
+                            for c in &mt.cols {
+                                if *rows > 0 && !cols.contains(c) {
+                                    self.null_typed.insert((tb.table.clone(), c.clone()));
+                                }
+                            }
+                        }
+                        for c in &mt.cols {
+                            let has_value = tb.cols.iter().any(|bc| &bc.name == c && bc.cells.iter().any(|x| !x.is_null()));
+                            if !has_value {
+                                self.null_typed.insert((tb.table.clone(), c.clone()));
+                            }
+                        }
+                    }
+                }
                 rt::core::log("op_return", || format!("ingest req={} acked", req.id));
                 self.count("ingest");
                 self.count_n("rows_ingested", req.tables.iter().map(|t| t.rows as u64).sum());
